@@ -565,6 +565,7 @@ hx_child_stop(struct ev_loop *loop, ev_child *c)
 
 /* ================= daemon life cycle ================= */
 static struct _echsd_s *hx_ctx;
+static double hx_drift;	/* virtual seconds that pass while a wake-up with spawns is handled */
 
 static void
 hx_nolog(int prio, const char *fmt, ...)
@@ -601,6 +602,22 @@ hx_iterate(void)
 {
 	int before = hx_nspawns;
 	ev_run(hx_ctx->loop, EVRUN_NOWAIT);
+	/* The real loop starts its next iteration at once and only then blocks in poll().  That next
+	 * iteration is where libev acts on echsd's ev_loop_fork() (it re-creates its timerfd and calls
+	 * every task's reschedule callback with a freshly read clock).  Run it now, hx_drift seconds
+	 * later (the time the daemon spent handling the wake-up), not at the next TICK; and again if
+	 * that iteration spawned something itself. */
+	for (int last = before, rounds = 0; rounds < 8; rounds++) {
+		int spawned = hx_nspawns > last;
+		last = hx_nspawns;
+		if (spawned) {
+			hx_now += hx_drift;
+		}
+		ev_run(hx_ctx->loop, EVRUN_NOWAIT);
+		if (!spawned && hx_nspawns == last) {
+			break;
+		}
+	}
 	/* earlier VTODOs of this iteration were collected by hx_pipe(), the last one is still pending */
 	if (hx_nspawns > before) {
 		hx_collect_vtodo(&hx_spawns[hx_nspawns - 1]);
